@@ -138,6 +138,13 @@ def run_state(desc):
         seg = float(cr @ cr) < EPSILON and not np.all(v1 == 0.0)
         mid_ok = seg and np.allclose(pos, 0.5 * (np.asarray(A.support_function(dd)) + np.asarray(B.support_function(-dd))), atol=1e-12 * L)
         branch = ":centres_on_axis_midpoint_of_extreme_points" if mid_ok else ":portal_branch"
+        if not mid_ok:
+            # recorded finding KF-C08-portal-position-not-shared: the portal selected by the centre ray is far from the minimum-depth
+            # direction, so the witness points (and their midpoint) leave the other collider.  Symptom: the reported depth exceeds an
+            # upper bound of the true depth (smallest overlap of the supporting slabs over the direction lattice) by more than 2x.
+            ub = min(rA.h(d) + rB.h(-d) for d in [np.asarray(x, dtype=float) for x in sc.DIRS] + [-np.asarray(x, dtype=float) for x in sc.DIRS])
+            if ub > 0 and t > 2.0 * ub:
+                branch += ":depth_far_from_minimal"
         viol.append(_viol("contact_position_not_shared", cls + branch, {"pos": pos, "distA": dA, "distB": dB, "tol": tol}))
     m = t * u
     if poly:
